@@ -482,7 +482,9 @@ func genPathFamily(r vlib.Rnd) []byte {
 	var sb strings.Builder
 	sb.WriteString("JSIGHT 0.3\n\nTYPE @int\n  1 // {min: 0}\n\nTYPE @re regex\n  /[a-z]+/\n\nTYPE @obj\n  {\"k\": 1}\n\nENUM @e\n  [\"a\", \"b\"]\n\n")
 	vals := []string{"1", "\"s\"", "1 // {min: 0}", "1 // {min: 5}", "\"abc\" // {maxLength: 2}", "\"a\" // {enum: @e}", "\"z\" // {enum: @e}", "@int", "@re", "@obj", "@nope", "@int | @re",
-		"12.5 // {type: \"decimal\", precision: 1}", "1 // {type: \"string\"}", "\"x\" // {regex: \"^[0-9]+$\"}", "null", "true", "1 // {optional: true}", "\"2020-01-01\" // {type: \"date\"}", "\"nodate\" // {type: \"date\"}"}
+		"12.5 // {type: \"decimal\", precision: 1}", "1 // {type: \"string\"}", "\"x\" // {regex: \"^[0-9]+$\"}", "null", "true", "1 // {optional: true}", "\"2020-01-01\" // {type: \"date\"}", "\"nodate\" // {type: \"date\"}",
+		"\"a@b.cc\" // {type: \"email\"}", "1 // {type: \"any\"}", "1 // {or: [\"@int\", \"@re\"]}", "1 // {type: \"@int\"}", "1 // {min: 0, exclusiveMinimum: true}",
+		"\"550e8400-e29b-41d4-a716-446655440000\" // {type: \"uuid\"}", "\"http://a.b\" // {type: \"uri\"}"}
 	nv := 1 + r.Intn(3)
 	names := []string{"a", "b", "c"}[:nv]
 	path := ""
@@ -504,6 +506,7 @@ func genPathFamily(r vlib.Rnd) []byte {
 		}
 	}
 	extra := []string{}
+	var typeDefs []*strings.Builder // user types that Path bodies refer to, written at the end of the document
 	pathDir := func(ind string) {
 		var props []string
 		for _, n := range append(append([]string(nil), names...), extra...) {
@@ -514,7 +517,28 @@ func genPathFamily(r vlib.Rnd) []byte {
 		if len(props) == 0 {
 			return
 		}
-		sb.WriteString(ind + "Path\n" + ind + "  {\n")
+		// a quarter of the Path bodies take their properties from a user type: by reference or through allOf
+		open, close := ind+"  {\n", ind+"  }\n"
+		target := &sb
+		switch r.Intn(8) {
+		case 0:
+			name := fmt.Sprintf("@pt%d", len(typeDefs))
+			sb.WriteString(ind + "Path\n" + ind + "  " + name + "\n")
+			typeDefs = append(typeDefs, &strings.Builder{})
+			target = typeDefs[len(typeDefs)-1]
+			open, close = "\nTYPE "+name+"\n"+ind+"  {\n", ind+"  }\n"
+		case 1:
+			name := fmt.Sprintf("@pt%d", len(typeDefs))
+			sb.WriteString(ind + "Path\n" + ind + "  { // {allOf: \"" + name + "\"}\n" + ind + "  }\n")
+			typeDefs = append(typeDefs, &strings.Builder{})
+			target = typeDefs[len(typeDefs)-1]
+			open, close = "\nTYPE "+name+"\n"+ind+"  {\n", ind+"  }\n"
+		default:
+			sb.WriteString(ind + "Path\n")
+		}
+		sb := target
+		sb.WriteString(open)
+		defer func() { sb.WriteString(close) }()
 		for i, p := range props {
 			// the comma of a property line goes before its rule comment
 			if i < len(props)-1 {
@@ -526,7 +550,6 @@ func genPathFamily(r vlib.Rnd) []byte {
 			}
 			sb.WriteString(p + "\n")
 		}
-		sb.WriteString(ind + "  }\n")
 	}
 	// a third of the documents reach their URL / methods by pasting a root-level macro
 	viaMacro := vlib.Chance(r, 1, 3)
@@ -575,6 +598,9 @@ func genPathFamily(r vlib.Rnd) []byte {
 		if !strings.Contains(sb.String(), "PASTE @paths") {
 			sb.WriteString("\nPASTE @paths\n")
 		}
+	}
+	for _, td := range typeDefs {
+		sb.WriteString(td.String())
 	}
 	return []byte(sb.String())
 }
